@@ -1579,7 +1579,14 @@ fn own_encs<T: Ty>(cx: &mut Ctx, l: &[T], v: u32) -> Option<Vec<Vec<u8>>> {
 
 fn body_parts(cx: &mut Ctx, b: &TransactionBody, v: u32, prefix: Vec<u8>) -> Option<Parts> {
 	let ins: Vec<Vec<u8>> = if v >= 3 {
-		let cw: Vec<CommitWrapper> = (&b.inputs).into();
+		// `From<&Inputs> for Vec<CommitWrapper>` sorts by hash: under `catch` like every hash computation
+		let cw: Vec<CommitWrapper> = match catch(AssertUnwindSafe(|| (&b.inputs).into())) {
+			Ok(cw) => cw,
+			Err(m) => {
+				cx.oracle_fail(format!("Inputs hash computation failed (conversion to commitments panicked: {}) [version {}]", one_line(&m), v));
+				return None;
+			}
+		};
 		own_encs(cx, &cw, v)?
 	} else {
 		match &b.inputs {
@@ -3440,20 +3447,24 @@ fn gen_block_bits(rng: &mut Rng, n_chunks: usize, kind: u64) -> BlockBits {
 
 /// `proof`: an honestly made or reader-made `SegmentProof` (see `proof_for`)
 fn bitmap_segment_from(id: SegmentIdentifier, blocks: &[BlockBits], pf: SegmentProof) -> Option<BitmapSegment> {
-	let mut chunks = vec![];
-	for b in blocks {
-		for c in b.0.chunks(1024) {
-			let mut ch = BitmapChunk::new();
-			for (i, v) in c.iter().enumerate() {
-				if *v {
-					ch.set(i as u64, true);
+	// chunk construction and the conversion both run under `catch`
+	catch(AssertUnwindSafe(move || {
+		let mut chunks = vec![];
+		for b in blocks {
+			for c in b.0.chunks(1024) {
+				let mut ch = BitmapChunk::new();
+				for (i, v) in c.iter().enumerate() {
+					if *v {
+						ch.set(i as u64, true);
+					}
 				}
+				chunks.push(ch);
 			}
-			chunks.push(ch);
 		}
-	}
-	let lp: Vec<u64> = (0..chunks.len() as u64).map(|i| 2 * i + 1).collect();
-	catch(AssertUnwindSafe(move || BitmapSegment::from(Segment::from_parts(id, vec![], vec![], lp, chunks, pf)))).ok()
+		let lp: Vec<u64> = (0..chunks.len() as u64).map(|i| 2 * i + 1).collect();
+		BitmapSegment::from(Segment::from_parts(id, vec![], vec![], lp, chunks, pf))
+	}))
+	.ok()
 }
 
 /// hand-assembled encoding: id, block count, blocks (each in the given mode / order), proof
@@ -3749,7 +3760,7 @@ fn bitmaps(cx: &mut Ctx) {
 						continue;
 					}
 				};
-				let np = match bitmap_blocks(&seg) {
+				let np = match catch(AssertUnwindSafe(|| bitmap_blocks(&seg))).ok().flatten() {
 					Some((_, blocks, pf)) => {
 						if blocks.len() == 1 {
 							cx.corner("BitmapSegment:1-block(from_pmmr)");
